@@ -1,13 +1,6 @@
 let () =
   let argv = Sys.argv in
   let comp = if Array.length argv > 1 then argv.(1) else "" in
-  let arg i = argv.(i) in
-  let file () = if Array.length argv > 2 then open_in argv.(2) else stdin in
-  match comp with
-  | "slist" -> Run_slist.main ~v0:false (file ())
-  | "slist_v0" -> Run_slist.main ~v0:true (file ())
-  | "slist-bfs" | "slist_v0-bfs" ->
-    (* slist-bfs <nlists> <max_states> k0 k1 ... *)
-    let keys = Stdlib.List.map int_of_string (Array.to_list (Array.sub argv 4 (Array.length argv - 4))) in
-    Run_slist.explore ~v0:(comp = "slist_v0-bfs") (int_of_string (arg 2)) keys (int_of_string (arg 3))
-  | _ -> prerr_endline ("unknown component " ^ comp); exit 2
+  match Hashtbl.find_opt Util.registry comp with
+  | Some f -> f argv
+  | None -> prerr_endline ("unknown component " ^ comp); exit 2
